@@ -723,6 +723,39 @@ def r4_labels(ctx, mi) -> None:
   ctx.check(not b, 'R4', 'to_metrics does not write into its argument', tom.node, 'in-place arithmetic only on private copies',
             f'in-place operation at line {b[0].lineno if b else 0} on an array that may be the caller\'s labels: decoding the same array '
             'twice gives different metrics', construct='to_metrics-inplace', func=tom.qualname)
+  # a missing metric is told from a present one by presence, never by the truthiness of the metric *value* (0.0 is a value)
+  numeric_truthy = None
+
+  def numeric_source(e, depth=0) -> bool:
+    # does `e` denote metric values (floats): x.value / get_value(..) / a comprehension of those
+    e = flow.resolve_local(conv.node, e)
+    if depth > 4:
+      return False
+    if isinstance(e, ast.Attribute) and e.attr == 'value':
+      return True
+    if isinstance(e, ast.Call) and isinstance(e.func, ast.Attribute) and e.func.attr == 'get_value':
+      return True
+    if isinstance(e, ast.IfExp):
+      return numeric_source(e.body, depth + 1) or numeric_source(e.orelse, depth + 1)
+    if isinstance(e, (ast.ListComp, ast.GeneratorExp)):
+      return numeric_source(e.elt, depth + 1)
+    return False
+  for comp in (x for x in ast.walk(conv.node) if isinstance(x, (ast.ListComp, ast.GeneratorExp))):
+    for gen in comp.generators:
+      if not isinstance(gen.target, ast.Name):
+        continue
+      v = gen.target.id
+      tests = [x.test for x in ast.walk(comp.elt) if isinstance(x, ast.IfExp)] + list(gen.ifs)
+      for t in tests:
+        parts = t.values if isinstance(t, ast.BoolOp) else [t]
+        for p_ in parts:
+          q_ = p_.operand if isinstance(p_, ast.UnaryOp) and isinstance(p_.op, ast.Not) else p_
+          if isinstance(q_, ast.Name) and q_.id == v and numeric_source(gen.iter):
+            numeric_truthy = numeric_truthy or p_
+  ctx.check(numeric_truthy is None, 'R4', 'missing metrics are detected by presence, not by the value being falsy', conv.node,
+            'no truthiness test on a metric value',
+            f'`{unparse(numeric_truthy, 30) if numeric_truthy is not None else ""}` tests the truthiness of a metric value: an objective of exactly 0.0 is '
+            'converted to NaN (and comes back as a missing metric)', construct='convert:value-truthiness', func=conv.qualname)
   b2 = AliasAnalysis(ctx, conv, conv.params[1], set()).run()
   ctx.check(not b2, 'R4', 'convert does not write into its argument', conv.node, 'ok', 'convert writes into its argument',
             construct='convert-inplace', func=conv.qualname)
